@@ -1,21 +1,11 @@
-(* More straight-line functions of the regenerated GoLite program (Gen/Generated.v) against the
-   hand-written model: the info byte (ShareFmt / Helpers), the builder's capacity test and getters
-   (Builder), share ranges (Helpers) and rawTxSize (Varint.delim_len). *)
+(* info byte functions of the regenerated program against Model/ShareFmt.v, Model/Helpers.v *)
 From Coq Require Import Lia ZArith NArith List String ZifyN ZifyNat ZifyBool.
 From GS.Model Require Import Base Varint ShareFmt Counter Arith Builder Helpers GoLite.
 From GS.Proofs Require Import BaseLemmas VarintProofs HelpersProofs GoLiteLemmas.
 From GS.Gen Require Import Generated.
 From GS.GenProofs Require Import GenLink.
 Open Scope string_scope. Open Scope Z_scope.
-
-(* Z.eqb / Z.ltb are [simpl never] (GoLiteLemmas); decide the tests on literals that symbolic
-   execution leaves behind *)
-Ltac kz :=
-  repeat first [ progress change (0 =? 0) with true
-               | progress change (1 =? 0) with false
-               | progress change (2 =? 0) with false
-               | progress change (1 <? 0) with false ];
-  cbn.
+From GS.GenProofs Require Import GenMoreBase.
 
 (* ---------- share.NewInfoByte ---------- *)
 
@@ -163,165 +153,6 @@ Proof.
   intros Hf. split; [apply parse_info_byte_gen; [exact Hf|apply byte_Z_range]|apply parse_info_byte_total].
 Qed.
 
-(* ---------- square.Builder.canFit / CurrentSize / SubtreeRootThreshold ---------- *)
-(* arguments: the receiver's integer fields [maxSquareSize; currentSize; done; subtreeRootThreshold]
-   (then the Go arguments); results: the Go results followed by the four fields after the call *)
-
-Definition in_i64 (z : Z) : Prop := - 2^63 <= z < 2^63.
-
-Lemma in_i64_wrap z : in_i64 z -> wrap I64 z = z.
-Proof. intros H. apply wrap_I64_small. exact H. Qed.
-
-(* exactly: neither the sum nor the square leaves int64 *)
-Lemma builder_can_fit_gen fuel max cur dn thr n : (1 <= fuel)%nat ->
-  in_i64 (cur + n) -> in_i64 (max * max) ->
-  gen_call fuel "square.Builder.canFit" I64 [max; cur; dn; thr; n] =
-  Val [b2z (cur + n <=? max * max); max; cur; dn; thr].
-Proof.
-  intros Hf Hs Hm. destruct fuel as [|fuel]; [lia|].
-  unfold gen_call. rewrite callf_S. cbn.
-  rewrite (in_i64_wrap (cur + n)), (in_i64_wrap (max * max)) by assumption.
-  reflexivity.
-Qed.
-
-Lemma square_lt_2_62 max : - 2^31 <= max <= 2^31 -> 0 <= max * max <= 2^62.
-Proof.
-  intros H. change (2^31) with 2147483648 in H. change (2^62) with 4611686018427387904. nia.
-Qed.
-
-Lemma builder_can_fit_gen_range fuel max cur dn thr n : (1 <= fuel)%nat ->
-  - 2^31 <= max <= 2^31 -> - 2^62 <= cur < 2^62 -> - 2^62 <= n < 2^62 ->
-  gen_call fuel "square.Builder.canFit" I64 [max; cur; dn; thr; n] =
-  Val [b2z (cur + n <=? max * max); max; cur; dn; thr].
-Proof.
-  intros Hf Hm Hc Hn. pose proof (square_lt_2_62 max Hm) as Hq.
-  apply builder_can_fit_gen; [exact Hf| |]; unfold in_i64;
-    change (2^62) with 4611686018427387904 in *; change (2^63) with 9223372036854775808; lia.
-Qed.
-
-(* the receiver as the model's builder record *)
-Definition builder_fields (b : builder) : list Z :=
-  [Z.of_N (bd_max b); bd_cur b; b2z (bd_done b); Z.of_N (bd_thr b)].
-
-Lemma builder_can_fit_model fuel b n : (1 <= fuel)%nat ->
-  in_i64 (bd_cur b + n) -> (bd_max b * bd_max b < 2^63)%N ->
-  gen_call fuel "square.Builder.canFit" I64 (builder_fields b ++ [n]) =
-  Val (b2z (can_fit b n) :: builder_fields b).
-Proof.
-  intros Hf Hs Hm. unfold builder_fields, can_fit. cbn [app].
-  rewrite N2Z.inj_mul.
-  apply builder_can_fit_gen; [exact Hf|exact Hs|].
-  unfold in_i64. change (2^63)%N with 9223372036854775808%N in Hm.
-  change (2^63) with 9223372036854775808. lia.
-Qed.
-
-(* outside the range: maxSquareSize = 2^32 passes NewBuilder's checks (positive, a power of two) but
-   its square is 0 in int64, so the Go function says "does not fit" where the model says "fits" *)
-Lemma builder_can_fit_wraps fuel : (1 <= fuel)%nat ->
-  gen_call fuel "square.Builder.canFit" I64 [2^32; 0; 0; 64; 1] = Val [0; 2^32; 0; 0; 64] /\
-  can_fit (empty_builder (2^32) 64) 1 = true /\
-  builder_fields (empty_builder (2^32) 64) = [2^32; 0; 0; 64] /\
-  new_builder_ok (2^32) = true.
-Proof.
-  intros Hf. destruct fuel as [|fuel]; [lia|].
-  unfold gen_call. rewrite callf_S. vm_compute. repeat split; reflexivity.
-Qed.
-
-Lemma builder_getters_gen fuel max cur dn thr : (1 <= fuel)%nat ->
-  gen_call fuel "square.Builder.CurrentSize" I64 [max; cur; dn; thr] = Val [cur; max; cur; dn; thr] /\
-  gen_call fuel "square.Builder.SubtreeRootThreshold" I64 [max; cur; dn; thr] = Val [thr; max; cur; dn; thr].
-Proof.
-  intros Hf. destruct fuel as [|fuel]; [lia|].
-  unfold gen_call. rewrite !callf_S. cbn. split; reflexivity.
-Qed.
-
-Lemma builder_getters_model fuel b : (1 <= fuel)%nat ->
-  gen_call fuel "square.Builder.CurrentSize" I64 (builder_fields b) = Val (bd_cur b :: builder_fields b) /\
-  gen_call fuel "square.Builder.SubtreeRootThreshold" I64 (builder_fields b) =
-    Val (Z.of_N (bd_thr b) :: builder_fields b).
-Proof. intros Hf. apply builder_getters_gen. exact Hf. Qed.
-
-(* ---------- square.Element.maxShareOffset ---------- *)
-
-Lemma element_max_share_offset_gen fuel pfb blob n p : (1 <= fuel)%nat -> in_i64 (n + p) ->
-  gen_call fuel "square.Element.maxShareOffset" I64 [pfb; blob; n; p] = Val [n + p].
-Proof.
-  intros Hf Hs. destruct fuel as [|fuel]; [lia|].
-  unfold gen_call. rewrite callf_S. cbn. rewrite in_i64_wrap by exact Hs. reflexivity.
-Qed.
-
-Definition element_fields (e : element) : list Z :=
-  [Z.of_N (e_pfb_index e); Z.of_N (e_blob_index e); Z.of_N (e_num_shares e); Z.of_N (e_max_padding e)].
-
-Lemma element_max_share_offset_model fuel e : (1 <= fuel)%nat ->
-  (e_num_shares e + e_max_padding e < 2^63)%N ->
-  gen_call fuel "square.Element.maxShareOffset" I64 (element_fields e) = Val [Z.of_N (max_share_offset e)].
-Proof.
-  intros Hf Hs. unfold element_fields, max_share_offset. rewrite N2Z.inj_add.
-  apply element_max_share_offset_gen; [exact Hf|].
-  unfold in_i64. change (2^63)%N with 9223372036854775808%N in Hs.
-  change (2^63) with 9223372036854775808. lia.
-Qed.
-
-(* ---------- share.Range.IsEmpty / Add ---------- *)
-
-(* the model's Go-int wrap-around is GoLite's wrap at int64 *)
-Lemma int_wrap_is_wrap z : int_wrap z = wrap I64 z.
-Proof. reflexivity. Qed.
-
-Lemma range_is_empty_gen fuel s e : (1 <= fuel)%nat ->
-  gen_call fuel "share.Range.IsEmpty" I64 [s; e] = Val [b2z (range_is_empty (s, e))].
-Proof.
-  intros Hf. destruct fuel as [|fuel]; [lia|].
-  unfold gen_call. rewrite callf_S. cbn. unfold eval_cmp, range_is_empty. cbn [fst snd].
-  destruct (s =? 0); cbn; kz; [|reflexivity].
-  destruct (e =? 0); reflexivity.
-Qed.
-
-(* every int64 (in fact every integer): no overflow condition, both sides wrap the same way *)
-Lemma range_add_gen fuel s e v : (1 <= fuel)%nat ->
-  gen_call fuel "share.Range.Add" I64 [s; e; v] =
-  Val [fst (range_add (s, e) v); snd (range_add (s, e) v)].
-Proof.
-  intros Hf. destruct fuel as [|fuel]; [lia|].
-  unfold gen_call. rewrite callf_S. cbn. reflexivity.
-Qed.
-
-(* ... and the results are int64 values again *)
-Lemma range_add_in_i64 s e v :
-  in_i64 (fst (range_add (s, e) v)) /\ in_i64 (snd (range_add (s, e) v)).
-Proof.
-  unfold range_add, in_i64. cbn [fst snd].
-  pose proof (int_wrap_in_int (s + v)) as H1. pose proof (int_wrap_in_int (e + v)) as H2.
-  unfold in_int in *. change (2^63) with 9223372036854775808. lia.
-Qed.
-
-(* ---------- share.rawTxSize ---------- *)
-
-Lemma raw_tx_size_gen fuel n : (2 <= fuel)%nat -> 0 <= n < 2^63 ->
-  gen_call fuel "share.rawTxSize" I64 [n] = Val [n - Z.of_N (delim_len (Z.to_N n))].
-Proof.
-  intros Hf Hn. change (2^63) with 9223372036854775808 in Hn.
-  destruct fuel as [|fuel]; [lia|]. destruct fuel as [|fuel]; [lia|].
-  unfold gen_call. rewrite callf_S. cbn.
-  rewrite (wrap_U64_small n) by lia.
-  destruct (n <? 0) eqn:E0; [lia|]. cbn.
-  assert (Hdl: 1 <= Z.of_N (delim_len (Z.to_N n)) <= 10).
-  { unfold delim_len, lenN. pose proof (put_uvarint_length (Z.to_N n)). lia. }
-  rewrite wrap_I64_small by lia. reflexivity.
-Qed.
-
-Lemma raw_tx_size_sum fuel n : (2 <= fuel)%nat -> 0 <= n < 2^63 ->
-  exists r, gen_call fuel "share.rawTxSize" I64 [n] = Val [r] /\
-            r + Z.of_N (delim_len (Z.to_N n)) = n /\ n - 10 <= r <= n - 1.
-Proof.
-  intros Hf Hn. exists (n - Z.of_N (delim_len (Z.to_N n))).
-  split; [apply raw_tx_size_gen; assumption|].
-  assert (Hdl: 1 <= Z.of_N (delim_len (Z.to_N n)) <= 10).
-  { unfold delim_len, lenN. pose proof (put_uvarint_length (Z.to_N n)). lia. }
-  lia.
-Qed.
-
 (* ---------- bundles (the statements of GenProofs/C10_gen.v) ---------- *)
 
 Lemma new_info_byte_gen_cases fuel v b : (1 <= fuel)%nat ->
@@ -357,3 +188,4 @@ Proof.
   intros Hf Hi. split; [apply parse_info_byte_gen; assumption|].
   split; [apply parse_info_byte_model; assumption|apply parse_info_byte_total].
 Qed.
+
